@@ -13,7 +13,8 @@ CHECKS = {
         "selfing depth 0..3, crossover vectors with exact 0/0.5, numpy Generator / RandomState / scripted boundary draws, two "
         "consecutive calls. Oracle reads provenance from the progeny: allowed parents per side, source changes only where "
         "xoprob>0, one intermediate hybrid per mating, DH homozygosity, counts/order/names/family labels/counters, inputs and "
-        "marker metadata unchanged. Absence is not established; intermediate hybrids are not observable directly.",
+        "marker metadata unchanged. Absence is not established; intermediate hybrids are not observable directly. "
+        "Also: negative parent indices, progeny counters beyond the 7-digit padding (each progeny then located through the counter in its name).",
         "Counters < 10**7; at least one progeny in total; starting copy at the first marker unconstrained.",
         "DESIGN.md §3 C01"),
     "C02": (
@@ -25,7 +26,8 @@ CHECKS = {
         "composition over non-adjacent markers (from the map, not from xoprob), independent assortment of chromosome starts, "
         "independence between gametes; stored xoprob equals the map function of the map distance (1e-12). Total false-alarm "
         "budget 1e-9 per run. Convergence 'in the limit' is replaced by finite samples: deviations below ~0.026 (quick) / "
-        "~0.008 (thorough) are not detectable.",
+        "~0.008 (thorough) are not detectable. "
+        "Also: parents homozygous at a generated subset of markers (recombination between heterozygous markers across homozygous ones against the product formula) and one 4500 x 2048 call (all crossover patterns of one call distinct).",
         "Fixed-seed statistical test; trusts scipy.stats.binomtest; numpy generator streams assumed to be good uniform sources.",
         "DESIGN.md §3 C02"),
     "C03": (
@@ -37,7 +39,8 @@ CHECKS = {
         "id from which all its labels and data cells derive, so after each step the harness checks that every position holds the data and "
         "all labels of one entity (the expected arrangement comes from numpy applied to the id lists; for sort/group the realised "
         "permutation is read back and only key order is required), operands are unchanged, generic(axis=+/-) equals specific, mutating "
-        "equals non-mutating, and a reported grouping is a true contiguous partition.",
+        "equals non-mutating, and a reported grouping is a true contiguous partition. "
+        "Also: square-taxa, molecular-coancestry and square taxa-trait families (operations on both taxa axes, fill value off the blocks), the three genotyping protocols after preparatory grouping/sorting, mutating operations applied to the live object with earlier operands re-verified after every step (aliasing), wide group ids under narrow label dtypes, matrix operands with partial explicit label arrays.",
         "Index semantics taken from numpy; operands share the receiver's entities on the other axes; tie order in sorts unconstrained; "
         "square-taxa, breeding-value and trait-square families are covered to the extent stated in evidence.",
         "DESIGN.md §3 C03"),
@@ -48,7 +51,8 @@ CHECKS = {
         "values and labels from phased, unphased and raw-array input, taxon-permutation equivariance, additivity over marker partitions, score, "
         "var_A/var_G/var_a, Bulmer ratio incl. its NaN rule, all twelve favourable/deleterious/neutral allele statistics with every dtype, and for "
         "fitted rrBLUP models: intercept = training mean, monomorphic markers exactly zero, penalised criterion no worse than the zero solution, "
-        "normal equations within a bound derived from the solver's stopping rules.",
+        "normal equations within a bound derived from the solver's stopping rules. "
+        "Also: effects assigned through the public setters after the model object has been used with other effects.",
         "Tolerances are k*eps*sum|terms|; no subnormal effects; Nelder-Mead optimum of the likelihood is not itself checked.",
         "DESIGN.md §3 C04"),
     "C11": (
@@ -57,7 +61,8 @@ CHECKS = {
         "classes, 1..5 chromosomes, congruent and non-congruent, cM/M units, auto_group on/off): pairwise distances symmetric / zero diagonal / "
         "additive / inf across chromosomes, sequential = pairwise, interpolation at own markers exact, exact-rational linear reference between and "
         "beyond markers, order preservation, absent chromosome -> NaN, invariance under row permutation, interp_gmap rows and group metadata; "
-        "interp_xoprob on phased and unphased matrices equals mapfn of consecutive interpolated distances with 1/2 at chromosome starts.",
+        "interp_xoprob on phased and unphased matrices equals mapfn of consecutive interpolated distances with 1/2 at chromosome starts. "
+        "Also: operation histories on map objects (rebuild, remove/select, setter, derived maps, copies) with every other live map re-verified; matrices that already carry positions.",
         "Duplicated physical positions excluded (as the property states); negative distances on non-congruent maps are skipped and counted.",
         "DESIGN.md §3 C11"),
     "C12": (
@@ -67,7 +72,8 @@ CHECKS = {
         "dihybrid genetic variance, genic variance and progeny covariance classes through from_algmod / from_gmod / factories equals the oracle "
         "(written from the mating protocols, not from the library's D-matrix formulas; self-tested on hand-computed values at import) within "
         "1e-11 x sum|terms|; symmetry in exchangeable parents, zero for identical parents, mem invariance, taxa-permutation equivariance, labels; "
-        "usefulness criterion = parental mean + intensity x sqrt(variance); rprob_filial and cov_D* utilities against enumerated pedigrees.",
+        "usefulness criterion = parental mean + intensity x sqrt(variance); rprob_filial and cov_D* utilities against enumerated pedigrees. "
+        "Also: one factory / model / genotype object re-used through 2..4 requests with public modifications in between.",
         "Binary allele coding; progeny genic covariance classes cannot be instantiated (abstract) and are not exercised.",
         "DESIGN.md §3 C12"),
     "C13": (
@@ -77,7 +83,8 @@ CHECKS = {
         "independent loop formulas (molecular = 2 x mean IBS by enumerating allele pairs), labels and group metadata, symmetry, PSD with a Weyl "
         "bound, kinship = half coancestry, commutation with sub-selection/permutation for fixed reference frequencies, inverse / extreme / mean / "
         "minimum-inbreeding summaries and the PSD predicate against numpy on the oracle matrix; a second sub-check wraps generated PD, singular "
-        "and indefinite matrices.",
+        "and indefinite matrices. "
+        "Also: panel sizes across 2^15 / 2^16 markers with a closed-form oracle; row-major, column-major, strided and read-only storage; in-place reorder/sort/group followed by queries; a private snapshot for the no-mutation clause.",
         "Inverse and min-inbreeding only for condition number <= 1e6; Yang reference frequencies in [0.01,0.99]; weights 0 or >= 1e-6.",
         "DESIGN.md §3 C13"),
     "C14": (
@@ -87,7 +94,8 @@ CHECKS = {
         "label; partially-zero variances show the deterministic noise structure (environment effect shared within an environment, etc.); "
         "set_h2/set_H2 give var_err = (1-h)/h x var_A|G; large trials test error, replicate and environment variance with exact chi-square "
         "tails; mean-phenotype breeding values equal the fsum mean of each taxon's records, are invariant to row permutation, aligned to the "
-        "genotype matrix's taxon order, NaN exactly for unphenotyped taxa.",
+        "genotype matrix's taxon order, NaN exactly for unphenotyped taxa. "
+        "Also: label columns stored as str/object/string/categorical and several integer dtypes; the same array object passed for several variance arguments and to a second protocol.",
         "Duplicate taxon names and taxa with more than one group are outside the domain; models with one fixed effect; statistical resolution ~10-25% at the quick tier.",
         "DESIGN.md §3 C14"),
     "C15": (
@@ -96,7 +104,8 @@ CHECKS = {
         "classes: unscale() reproduces the raw values within 8 eps (|location| + scale |mat|), stored columns are standardised (unit scale and "
         "zeros for constant traits), every summary on the original scale (max/min/range/mean/std/var/arg-extrema) equals the exact raw "
         "statistic for NaN-free traits; histories of select/delete/insert/adjoin/concat/append/remove/incorp keep every retained taxon's raw "
-        "row and NaN positions; DenseScaledMatrix rescale/unscale/transform/untransform.",
+        "row and NaN positions; DenseScaledMatrix rescale/unscale/transform/untransform. "
+        "Also: units from 1e-30 to 1e10, zero-row operands, every earlier object re-verified after each step, negative indices.",
         "Summaries on NaN-containing traits are not asserted (ambiguous); append/incorp with a bare ndarray not exercised (raw vs scaled ambiguous).",
         "DESIGN.md §3 C15"),
     "C16": (
@@ -105,7 +114,8 @@ CHECKS = {
         "histories (1..4 writes with overwrite to generated file/group paths, read back equals the last object written, writing does not mutate), "
         "pandas/CSV/dict/egmap round trips with generated column names, separators and units, VCF text generated from a grammar and imported by "
         "both genotype classes (sample names, coordinates, ids, phased calls exact), copy/deepcopy equality, no shared memory, and mutation of "
-        "every array of the deep copy leaving the source unchanged.",
+        "every array of the deep copy leaving the source unchanged. "
+        "Also: histories of further copies/edits on one source object for every copy entry point.",
         "Frame formats cannot represent an absent label array (skipped there); CSV floats exact for dyadic values, 1e-12 relative otherwise (pandas parser).",
         "DESIGN.md §3 C16"),
     "C05": (
@@ -116,7 +126,8 @@ CHECKS = {
         "integer, binary and real encodings of the same contributions agree; invariance under relisting and positive rescaling; evalfn = declared "
         "weights x declared transformations (harness closures record their arguments); evaluate() row-wise equals evalfn; nlatent = len(latent). "
         "Factory sub-checks build problems from populations stored in two taxon orders with non-sorted names and compare both the data attributes "
-        "and end-to-end latent values with oracle values computed from the population.",
+        "and end-to-end latent values with oracle values computed from the population. "
+        "Also: evalfn = declared weights x declared transformations (with their own kwargs) for all 77 factory methods, and fixed factory cases across the 1024-row chunk boundary.",
         "Subsets are lists of distinct members (repeats via the integer encoding); UC factories only for inbred parents/nself=0 (variance itself is C12); "
         "haplotype factories only for unambiguous block layouts (C18); OCS/MGR/MEH factories have an independent kinship oracle for the molecular estimator only.",
         "DESIGN.md §3 C05"),
@@ -126,7 +137,8 @@ CHECKS = {
         "EBV selection problems, every optimiser class with tiny budgets: returned decisions lie in the decision space (size, membership, distinct "
         "members, bounds, dtypes), reported objective/constraint values equal a fresh evaluation, multi-objective results contain no dominated "
         "member, the problem object is unchanged; SortingSubsetOptimizationAlgorithm attains the brute-force optimum over all C(n,k) subsets of "
-        "separable problems; hill-climbers are 1-exchange locally optimal under (violation, score); pymoo_addon operators keep subsets valid.",
+        "separable problems; hill-climbers are 1-exchange locally optimal under (violation, score); pymoo_addon operators keep subsets valid. "
+        "Also: objective units from 1e-12 to 1e15 and near-ties, population-wise (elementwise=False) evaluation with both constraint kinds, signed-slack constraints.",
         "GA runs are not replay-deterministic through the public API (C08 findings); oracles are validity predicates and every violation message carries the returned arrays.",
         "DESIGN.md §3 C06"),
     "C07": (
@@ -136,7 +148,8 @@ CHECKS = {
         "of self-pairings, cross-map rows rebuilt with itertools); EBV/GEBV subset selection with the sorting optimiser chooses exactly the top "
         "candidates by an independently computed criterion and permuting/relabelling the population permutes the choice; ten protocol combinations "
         "with GA optimisers: configuration decision is the reported solution and, for multi-objective runs, a non-dominated argmax of the declared "
-        "preference transformation recomputed by the harness.",
+        "preference transformation recomputed by the harness. "
+        "Also: independent OHV and UC truncation criteria with the exact optimiser incl. cross maps beyond 1024/2048 candidates, and re-use of one protocol object with settings and populations changed between uses.",
         "No independent truncation criterion for OHV/UC/OCS (validity and consistency only); fronts where the default preference is NaN are labelled and skip only the argmax clause.",
         "DESIGN.md §3 C07"),
     "C08": (
@@ -146,7 +159,8 @@ CHECKS = {
         "gives bit-identical outputs, also in two fresh interpreters; (B) a component given its own generator returns identical outputs under "
         "different global seeds and leaves random/numpy.random states byte-identical. Plus one enumerated representative call per component "
         "class. Calls matching the known findings (pymoo-based optimisers, Random*Selection.problem, UnconstrainedSetGeneticAlgorithm) have "
-        "exactly the affected clauses skipped and counted.",
+        "exactly the affected clauses skipped and counted. "
+        "Also: long-lived components (incl. copies) created before the re-seeding, and large inputs at which size-dependent branches are entered.",
         "Prior interpreter histories are sampled (prefix programs + direct draws), not enumerated; hidden entropy that never reaches an output is invisible.",
         "DESIGN.md §3 C08"),
     "C09": (
@@ -154,7 +168,8 @@ CHECKS = {
         "Generated-input search: phased/unphased matrices (ploidy 1/2/4, 1..300 taxa with the sizes where "
         "(1.0/d)*d != 1.0 forced, forced all-0/all-1/one-copy-different loci, every dtype argument) against "
         "integer and Fraction definitions computed in Python; boundary clauses (frequency exactly 0/1 iff fixed, "
-        "afixed == not apoly, ploidy+1 genotype classes summing to n) are exact. Absence is not established.",
+        "afixed == not apoly, ploidy+1 genotype classes summing to n) are exact. Absence is not established. "
+        "Also: statistics re-queried after in-place edits of the same object; populations of 50001 and 60000 taxa.",
         "Trusts numpy integer sums and Python Fraction; integer dtypes too narrow for the result are outside the domain.",
         "DESIGN.md §3 C09"),
     "C10": (
@@ -164,7 +179,8 @@ CHECKS = {
         "steered through 49, 98, 103, 107 (where 1/(2n) is not exactly invertible). After every step, through four input forms "
         "(phased matrix, unphased matrix, raw dosage array, frequency vector): limits equal their definition on integer counts, "
         "bracket every individual's value (oracle values and the library's own gebv), usl never rises, lsl never falls, lost alleles "
-        "never reappear, limits coincide with the common value when everything is fixed.",
+        "never reappear, limits coincide with the common value when everything is fixed. "
+        "Also: models with several fixed-effect rows.",
         "Histories are bounded (<= 6 steps, <= 107 taxa, <= 9 loci); diploid binary coding.",
         "DESIGN.md §3 C10"),
     "C17": (
@@ -174,7 +190,8 @@ CHECKS = {
         "RandomState places the offset at chosen fractions of the pointer spacing including within a few ulp of 0 and of the spacing. "
         "tiled_choice without replacement: every option q or q+1 times with exactly the remainder at q+1. axis_shuffle: only the requested "
         "slices are permuted. outcross_shuffle: multiset preserved, duplicates never increase, no pair exchange lowers them — all 858 tables "
-        "over three symbols up to 3x2 enumerated, larger ones generated.",
+        "over three symbols up to 3x2 enumerated, larger ones generated. "
+        "Also: wide cross tables whose descent needs far more rounds than there are crosses.",
         "Negative axes for axis_shuffle and non-contiguous tables for outcross_shuffle are outside the domain (undocumented / no caller).",
         "DESIGN.md §3 C17"),
     "C18": (
@@ -184,7 +201,8 @@ CHECKS = {
         "haplobin_bounds (labels non-decreasing, within chromosomes, run-length encoding), four haplotype-matrix implementations (every entry "
         "written and finite, blocks sum to the copy's additive value), OHV/OPV/GenotypeBuilder values = ploidy x sum of best block values and "
         ">= every doubled haploid that recombines only at block boundaries (exhaustive when <= 256 choices). Cases in which some equal-width bin "
-        "receives no marker (known finding F-C18-a, signature computed by the harness from the case alone) skip exactly the clauses it breaks.",
+        "receives no marker (known finding F-C18-a, signature computed by the harness from the case alone) skip exactly the clauses it breaks. "
+        "Also: problem objects driven through evaluate / assign block values or nbestfndr through the public setter / evaluate again.",
         "While pybrops runs, numpy.empty is replaced by an allocator that fills with NaN / a sentinel so uninitialised blocks cannot pass by luck.",
         "DESIGN.md §3 C18"),
     "C19": (
